@@ -162,8 +162,11 @@ CLAIMED["C13"] = dict(
          "the returned axis for axes centred at zero. Tied to the code by exact-rational comparison of every field of converted axes "
          "(incl. conversions inside 1/cm and eV unit contexts with non-zero offsets), by the model's index map evaluated with the "
          "numerical root of unity against DFunction.get_Fourier_transform, and by the oracle: direct Fourier sum on the returned "
-         "axis (complete and upper-half with Hermitian extension), transform-then-inverse. Partial: the upper-half index map and "
-         "FT^-1 o FT = id (orthogonality of the roots) are checked numerically, not proved.",
+         "axis (complete and upper-half with Hermitian extension), transform-then-inverse. For a primitive n-th root of unity in ANY field the model of "
+         "get_inverse_Fourier_transform applied to the model of get_Fourier_transform gives the function back, for every length "
+         "n >= 1 and every data, whenever dt*(dw/2pi)*n = 1 (iftComplete_ftComplete: exchange of sums, shift of a complete residue "
+         "system, geometric sum of a non-trivial root; the hypothesis is satisfiable over C for every n). Partial: the upper-half "
+         "index map of the full transform is checked numerically (its even/odd parts are proved in C09), not proved.",
     note="Lean kernel + standard axioms; numpy.fft contract (DFT with e^{-2 pi i/n}); hand model validated on generated inputs.",
     technique="Lean 4 field identities + Fin-rotation/ModEq index proof + correspondence and direct-sum oracle",
     ref="DESIGN.md §5 C13")
